@@ -1,16 +1,20 @@
 /-
-M9 — sub-workflow discovery of `engine.go`: `StepWorkflowPaths`, `SubworkflowCache` / `subworkflowCache` and the part
-of `workflowEngine.Parse` that builds the file cache.
+M9 — sub-workflow discovery of `engine.go`: `StepWorkflowPaths`, `SubworkflowCache` / `subworkflowCache`,
+`checkSubworkflowCycles` and the part of `workflowEngine.Parse` that builds the file cache.
 
 A file system is a finite list `name ↦ content`, where the content is the abstraction of what `FromYAML` returns for
 the file: `invalid` (FromYAML returned an error) or the list of steps reduced to the shapes `StepWorkflowPaths` looks
-at.  Cache keys are the strings written in `workflow:` fields; the file they denote is `norm key`, where the parameter
-`norm` stands for `filepath.Join(absDir, f)` (relative to the context directory; `./a.yaml` and `a.yaml` denote the
-same file).  The chain of parent files holds normalised names, as the Go code holds absolute paths.
+at.  Cache keys are the strings written in `workflow:` fields; the file on disk they denote is `norm key`, where the
+parameter `norm` stands for `filepath.Join(absDir, f)` (relative to the context directory; `./a.yaml` and `a.yaml` denote
+the same file).  The files the caller hands to `Parse` (`supplied`) are a second such list, read BY KEY: a referenced key
+the caller supplied is taken from there and not looked for on disk.  The chain of parent files holds what the Go code
+holds: the key of a supplied file, the absolute path (`norm key`) of a loaded one.
 
 `subworkflowCache` is a total function: Lean accepts its termination with the measure "number of files of the file
-system that are not yet in the chain" — every recursive call extends the chain by a file that exists and is not in
-it.  No fuel is involved.  (The version of the Go function before commit 9eb8f49 had no chain and no such measure.)
+system that are not yet in the chain + number of supplied keys that are not yet in the chain" — every recursive call
+extends the chain by a file that exists, or by a key that is supplied, and is not in it.  `checkCycles` likewise with
+the number of keys of the merged contents that are not in the chain.  No fuel is involved.  (The version of the Go
+function before commit 9eb8f49 had no chain and no such measure.)
 
 Core Lean only.
 -/
@@ -135,25 +139,107 @@ theorem unvisited_lt {fs : FS} {chain : List String} {p : String} {c : FileConte
     simp at hx ⊢
     exact hx.1
 
+theorem filter_length_le {α : Type} (p q : α → Bool) (l : List α) (himp : ∀ x, q x = true → p x = true) :
+    (l.filter q).length ≤ (l.filter p).length := by
+  induction l with
+  | nil => simp
+  | cons y ys ihy =>
+    simp only [List.filter_cons]
+    cases hqy : q y
+    · cases hpy : p y <;> simp <;> omega
+    · simp [himp y hqy]; omega
+
+/-- extending the chain never increases the measure -/
+theorem unvisited_le (fs : FS) (chain : List String) (p : String) : unvisited fs (chain ++ [p]) ≤ unvisited fs chain := by
+  unfold unvisited
+  apply filter_length_le
+  intro x hx
+  simp at hx ⊢
+  exact hx.1
+
+/-- the files the caller handed to `Parse`: key ↦ content; `none` = a nil `supplied` (the exported `SubworkflowCache`) -/
+abbrev Supplied := Option FS
+
+/-- `supplied.ContentByKey(path)`; `none`: the error return -/
+def supLookup (sup : Supplied) (p : String) : Option FileContent :=
+  match sup with
+  | none => none
+  | some s => lookup s p
+
+def supFS (sup : Supplied) : FS := sup.getD []
+
+theorem supLookup_supFS {sup : Supplied} {p : String} {c : FileContent} (h : supLookup sup p = some c) :
+    lookup (supFS sup) p = some c := by
+  cases sup with
+  | none => simp [supLookup] at h
+  | some s => exact h
+
+/-- the termination measure of the discovery: files of the file system + supplied keys that are not in the chain -/
+def measure (fs : FS) (sup : Supplied) (chain : List String) : Nat :=
+  unvisited fs chain + unvisited (supFS sup) chain
+
+/-- following a supplied key that is not in the chain decreases the measure -/
+theorem measure_lt_supplied {fs : FS} {sup : Supplied} {chain : List String} {p : String} {c : FileContent}
+    (hs : supLookup sup p = some c) (hn : ¬ p ∈ chain) : measure fs sup (chain ++ [p]) < measure fs sup chain := by
+  have h₁ := unvisited_le fs chain p
+  have h₂ := unvisited_lt (supLookup_supFS hs) hn
+  unfold measure
+  omega
+
+/-- following a file of the file system that is not in the chain decreases the measure -/
+theorem measure_lt_disk {fs : FS} {sup : Supplied} {chain : List String} {p : String} {c : FileContent}
+    (hl : lookup fs p = some c) (hn : ¬ p ∈ chain) : measure fs sup (chain ++ [p]) < measure fs sup chain := by
+  have h₁ := unvisited_lt hl hn
+  have h₂ := unvisited_le (supFS sup) chain p
+  unfold measure
+  omega
+
 mutual
-/-- `subworkflowCache(wf, rootDir, converter, flowCaches, parentFiles)`; `steps` is the abstraction of `wf`,
-    `flowCaches` the key lists of the caches collected so far, `chain` is `parentFiles` (absolute paths, here: normalised
-    names).  A `nil` cache is the empty key list (`MergeFileCaches` skips nil caches). All caches are created with the
-    same `rootDir`, so the root directory check of `MergeFileCaches` cannot fail here. -/
-def subworkflowCache (norm : String → String) (fs : FS) (steps : List Step) (flowCaches : List (List String))
-    (chain : List String) : Res :=
+/-- `subworkflowCache(wf, rootDir, converter, flowCaches, parentFiles, supplied)`; `steps` is the abstraction of `wf`,
+    `flowCaches` the key lists of the caches collected so far, `chain` is `parentFiles`.  A `nil` cache is the empty
+    key list (`MergeFileCaches` skips nil caches; `if flowCache != nil` therefore needs no counterpart). All caches are
+    created with the same `rootDir`, or are merges of nil caches, so the root directory check of `MergeFileCaches`
+    cannot fail here (`Arca.Props.C20`). -/
+def subworkflowCache (norm : String → String) (fs : FS) (sup : Supplied) (steps : List Step)
+    (flowCaches : List (List String)) (chain : List String) : Res :=
   let paths := stepWorkflowPaths steps
-  if paths.isEmpty then .ok []                                      -- return nil, nil
-  else if allPresent norm fs paths then                             -- NewFileCacheUsingContext + LoadContext
-    match loopFiles norm fs chain paths flowCaches with             -- for _, ctxFile := range stepFilesCache.Files()
-    | .error e => .error e
-    | .panic s => .panic s
-    | .ok caches => .ok ((caches ++ [paths]).flatten)               -- append(flowCaches, stepFilesCache); MergeFileCaches
-  else .error .missing
-termination_by (unvisited fs chain, 1, 0)
+  match loopSupplied norm fs sup chain paths flowCaches with        -- if supplied != nil { for path := range stepWorkflowPaths
+  | .error e => .error e
+  | .panic s => .panic s
+  | .ok flowCaches =>
+    let rest := paths.filter (fun p => (supLookup sup p).isNone)    -- what delete(stepWorkflowPaths, path) leaves
+    if rest.isEmpty then .ok flowCaches.flatten                     -- return nil, nil / MergeFileCaches(flowCaches...)
+    else if allPresent norm fs rest then                            -- NewFileCacheUsingContext + LoadContext
+      match loopFiles norm fs sup chain rest flowCaches with        -- for _, ctxFile := range stepFilesCache.Files()
+      | .error e => .error e
+      | .panic s => .panic s
+      | .ok caches => .ok ((caches ++ [rest]).flatten)              -- append(flowCaches, stepFilesCache); MergeFileCaches
+    else .error .missing
+termination_by (measure fs sup chain, 1, 0)
+
+/-- the loop over the paths the caller supplied; returns the extended `flowCaches` -/
+def loopSupplied (norm : String → String) (fs : FS) (sup : Supplied) (chain : List String) (paths : List String)
+    (flowCaches : List (List String)) : Outcome (List (List String)) :=
+  match paths with
+  | [] => .ok flowCaches
+  | p :: rest =>
+    match hs : supLookup sup p with
+    | none => loopSupplied norm fs sup chain rest flowCaches        -- ContentByKey fails: continue
+    | some .invalid =>
+      if p ∈ chain then .error .cycle else .error .invalid          -- parentFile == path; converter.FromYAML(content)
+    | some (.wf sub) =>
+      if hc : p ∈ chain then .error .cycle                          -- parentFile == path
+      else
+        have : measure fs sup (chain ++ [p]) < measure fs sup chain := measure_lt_supplied hs hc
+        -- chain := append(append(make(..), parentFiles...), path)
+        match subworkflowCache norm fs sup sub flowCaches (chain ++ [p]) with
+        | .error e => .error e
+        | .panic s => .panic s
+        | .ok flowCache => loopSupplied norm fs sup chain rest (flowCaches ++ [flowCache])
+termination_by (measure fs sup chain, 0, paths.length)
 
 /-- the loop over the context files; returns the extended `flowCaches` -/
-def loopFiles (norm : String → String) (fs : FS) (chain : List String) (files : List String)
+def loopFiles (norm : String → String) (fs : FS) (sup : Supplied) (chain : List String) (files : List String)
     (flowCaches : List (List String)) : Outcome (List (List String)) :=
   match files with
   | [] => .ok flowCaches
@@ -164,28 +250,70 @@ def loopFiles (norm : String → String) (fs : FS) (chain : List String) (files 
       | none => .error .missing                                     -- unreachable after LoadContext
       | some .invalid => .error .invalid                            -- converter.FromYAML(ctxFile.Content)
       | some (.wf sub) =>
-        have : unvisited fs (chain ++ [norm p]) < unvisited fs chain := unvisited_lt hl hc
+        have : measure fs sup (chain ++ [norm p]) < measure fs sup chain := measure_lt_disk hl hc
         -- chain := append(append(make(..), parentFiles...), ctxFile.AbsolutePath)
-        match subworkflowCache norm fs sub flowCaches (chain ++ [norm p]) with
+        match subworkflowCache norm fs sup sub flowCaches (chain ++ [norm p]) with
         | .error e => .error e
         | .panic s => .panic s
-        | .ok flowCache => loopFiles norm fs chain rest (flowCaches ++ [flowCache])
-termination_by (unvisited fs chain, 0, files.length)
+        | .ok flowCache => loopFiles norm fs sup chain rest (flowCaches ++ [flowCache])
+termination_by (measure fs sup chain, 0, files.length)
 end
 
 /-- `SubworkflowCache(wf, rootDir, converter, flowCaches)` -/
 def subworkflowCacheTop (norm : String → String) (fs : FS) (steps : List Step) : Res :=
-  subworkflowCache norm fs steps [] []
+  subworkflowCache norm fs none steps [] []
 
-/-- the file-cache part of `workflowEngine.Parse`: find the root (by key), convert it, collect the sub-workflows, merge -/
-def parseFiles (norm : String → String) (fs : FS) (root : String) : Res :=
-  match lookup fs root with
+mutual
+/-- `checkSubworkflowCycles(wf, contents, converter, parentFiles)`: the references are followed BY KEY in `contents` -/
+def checkCycles (ctx : FS) (steps : List Step) (chain : List String) : Outcome Unit :=
+  loopCheck ctx chain (stepWorkflowPaths steps)                     -- for _, path := range StepWorkflowPaths(wf)
+termination_by (unvisited ctx chain, 1, 0)
+
+def loopCheck (ctx : FS) (chain : List String) (paths : List String) : Outcome Unit :=
+  match paths with
+  | [] => .ok ()
+  | p :: rest =>
+    if hc : p ∈ chain then .error .cycle                            -- parentFile == path
+    else
+      match hl : lookup ctx p with
+      | none => loopCheck ctx chain rest                            -- missing: reported when the workflow is prepared
+      | some .invalid => .error .invalid                            -- converter.FromYAML(content)
+      | some (.wf sub) =>
+        have : unvisited ctx (chain ++ [p]) < unvisited ctx chain := unvisited_lt hl hc
+        match checkCycles ctx sub (chain ++ [p]) with
+        | .error e => .error e
+        | .panic s => .panic s
+        | .ok () => loopCheck ctx chain rest
+termination_by (unvisited ctx chain, 0, paths.length)
+end
+
+/-- `files.Contents()` after `MergeFileCaches(stepWorkflowFileCache, files)`: the caller's entries first (they win), then
+    the discovered keys with the content of the file they denote -/
+def mergedContents (norm : String → String) (fs files : FS) (keys : List String) : FS :=
+  files ++ keys.filterMap (fun k => (lookup fs (norm k)).map (fun c => (k, c)))
+
+/-- the file-cache part of `workflowEngine.Parse` for the caller's cache `files`: find the root (by key), convert it,
+    collect the sub-workflows (the caller's cache is `supplied`), merge, check the merged contents for reference cycles;
+    the result is the key list of the merged cache -/
+def parseFiles (norm : String → String) (fs files : FS) (root : String) : Res :=
+  match lookup files root with
   | none => .error .noWorkflowFile
   | some .invalid => .error .invalid
   | some (.wf steps) =>
-    match subworkflowCacheTop norm fs steps with
+    match subworkflowCache norm fs (some files) steps [] [] with
     | .error e => .error e
     | .panic s => .panic s
-    | .ok files => .ok (files ++ [root])        -- MergeFileCaches(stepWorkflowFileCache, files)
+    | .ok keys =>                               -- MergeFileCaches(stepWorkflowFileCache, files)
+      match checkCycles (mergedContents norm fs files keys) steps [] with
+      | .error e => .error e
+      | .panic s => .panic s
+      | .ok () => .ok (keys ++ files.map Prod.fst)
+
+/-- the cache `cmd/arcaflow/main.go` hands to `Parse`: `NewFileCacheUsingContext(dir, {root: root})` + `LoadContext`, i.e.
+    the root workflow alone, as it is on disk -/
+def contextCache (norm : String → String) (fs : FS) (root : String) : FS :=
+  match lookup fs (norm root) with
+  | some c => [(root, c)]
+  | none => []
 
 end Arca.Model.SubWf
